@@ -83,10 +83,12 @@ fn aftermath(ctx: &mut Context, expected: &[String], fk: &str, site: &str, case:
     let mut healthy = true;
     // (b) the same context keeps working
     let same_ctx = guarded(|| {
+        // (names no program of the set assigns to)
         let _ = ctx.get("v");
-        let v = ctx.get_variable("v");
+        ctx.set_variable("zy", Value::Number(Decimal::from(100)));
+        let v = ctx.get_variable("zy");
         ctx.set_variable("zz", Value::Number(Decimal::from(5)));
-        let ast = parse_expression("v + zz").map_err(|e| format!("{:?}", e))?;
+        let ast = parse_expression("zy + zz").map_err(|e| format!("{:?}", e))?;
         let r = ast.exec(ctx).map_err(|e| format!("{:?}", e))?;
         Ok((v, r))
     });
@@ -153,9 +155,9 @@ impl Prop for C15 {
         let progs = Programs::new(level(tier));
         for i in a..b {
             out.at(i);
-            // the quick tier leaves out two leaf styles that only vary which branch a condition
+            // the quick tier leaves out three leaf styles that only vary which branch a condition
             // selects / repeat one leaf (they matter for evaluation order, C07, not for containment)
-            if tier == Tier::Quick && matches!(progs.style_of(i), Some("mixed-false") | Some("repeat")) {
+            if tier == Tier::Quick && matches!(progs.style_of(i), Some("mixed-false") | Some("repeat") | Some("repeat-bare")) {
                 continue;
             }
             let ast = &progs.get(i);
